@@ -19,4 +19,25 @@ theorem projection_commutes (T : Iso3 F) (h : C03.IsRot3 T) (s : SP3 F) (q : V3 
     GenRs.SurfacePoint_projection (s.transformed T) (T.apply q) = T.apply (GenRs.SurfacePoint_projection s q) := by
   rw [C03T.SurfacePoint_projection_eq, C03T.SurfacePoint_projection_eq]
   exact C03.projection_commutes T h s q
+/-! ### `PointCloud::transform`: the pass over the normals (regenerated; the action of the motion on a direction is a
+parameter `rot`).  The translator's pattern requires the pass to be unconditional inside `if let Some(normals)`. -/
+
+/-- every normal is replaced by its image, none skipped, none added, order kept — for EVERY motion, however small its
+    rotation -/
+theorem cloud_normals_all_rotated (normals : List (V3 ℝ)) (rot : V3 ℝ → V3 ℝ) :
+    GenRs.cloud_transform_normals normals rot = normals.map rot ∧
+    (GenRs.cloud_transform_normals normals rot).length = normals.length ∧
+    ∀ i (h : i < normals.length), (GenRs.cloud_transform_normals normals rot)[i]? = some (rot normals[i]) := by
+  have e : GenRs.cloud_transform_normals normals rot = normals.map rot := rfl
+  refine ⟨e, by rw [e]; simp, ?_⟩
+  intro i h
+  rw [e]; simp [h]
+
+/-- transforming twice is transforming by the composition (so many small steps equal the one composed step) -/
+theorem cloud_normals_compose (normals : List (V3 ℝ)) (r1 r2 : V3 ℝ → V3 ℝ) :
+    GenRs.cloud_transform_normals (GenRs.cloud_transform_normals normals r1) r2
+      = GenRs.cloud_transform_normals normals (r2 ∘ r1) := by
+  show (normals.map r1).map r2 = normals.map (r2 ∘ r1)
+  simp
+
 end C03U
